@@ -29,6 +29,10 @@ func (c *Ctx) underLeaves(b *ssa.BasicBlock) map[string]bool {
 // a map without <dir> contradicts rq.<dir>.ok=T inside fn, and the unmodified map is handed over only on edges that are
 // dead under the state. Returns the call sites examined.
 func (c *Ctx) requestStateExcluded(fn *ssa.Function, under map[string]bool) (bool, string, []string) {
+	return c.requestStateExcludedAt(fn, under, 0)
+}
+
+func (c *Ctx) requestStateExcludedAt(fn *ssa.Function, under map[string]bool, depth int) (bool, string, []string) {
 	dir := ""
 	for k, v := range under {
 		if !strings.HasPrefix(k, "rq.") {
@@ -127,6 +131,16 @@ func (c *Ctx) requestStateExcluded(fn *ssa.Function, under map[string]bool) (boo
 				return false, where + ": no live source of the argument", sites
 			}
 			for _, lf := range leaves {
+				// handed on unchanged from the caller's own parameter (a forwarder in front of the function): the state
+				// must be excluded at that function's call sites
+				if p, ok := lf.(*ssa.Parameter); ok && p.Parent() == caller && depth < 3 {
+					excl, why, sub := c.requestStateExcludedAt(caller, under, depth+1)
+					if !excl {
+						return false, why, append(sites, sub...)
+					}
+					sites = append(sites, sub...)
+					continue
+				}
 				if why := c.strippedCopy(lf, dir, ci); why != "" {
 					return false, where + ": under the state the argument may be `" + lf.String() + "` (" + why + ")", sites
 				}
